@@ -41,12 +41,12 @@ def r1(ctx, R):
         for st, t in q.attr_writes(fi, recv="self.executor"):
             accum.add(t.attr)
     R.slot("accumulators_written_by_callees", sorted(accum))
-    R.need("rolledback" in accum, "rollback() no longer records nodes in executor.rolledback")
+    R.must("rolledback" in accum, "rollback() no longer records nodes in executor.rolledback")
     for spec, start in (("NonThreadedExecutor._start_exec", lambda f: q.calls(f, name="_eval_formula")),
                         ("ThreadedExecutor._start_exec", lambda f: q.calls(f, name="set", recv_endswith="signal_start"))):
         fi = ctx.func(spec)
         ev = start(fi)
-        R.need(ev, "%s: evaluation start not found" % spec)
+        R.must(ev, "%s: evaluation start not found" % spec)
         reads = {n.attr for n in walk_local(fi.node) if isinstance(n, ast.Attribute) and isinstance(n.ctx, ast.Load)
                  and dotted(n.value) == "self"}
         for fld in sorted((accum | {"excinfo", "errorstack"}) & reads):
@@ -109,13 +109,13 @@ def r2(ctx, R):
                 names.add(f.name)
     R.slot("frame_name_literals", lits)
     R.slot("formula_invoking_methods", sorted(names))
-    R.need(names, "no formula-invoking method found")
+    R.must(names, "no formula-invoking method found")
     R.inst("frame.name literal == %s" % sorted(names))
     if len(lits) != 1 or {lits[0]} != names:
         R.bad(es, es.node, "ErrorStack matches frame name %s but formulas are invoked from %s: no node "
                            "is paired with its line" % (lits, sorted(names)), stmt="frame.name ==")
     loops = [n for n in walk_local(es.node) if isinstance(n, ast.For) and norm(n.iter) == "tbexc.stack"]
-    R.need(len(loops) == 1, "loop over tbexc.stack not found")
+    R.must(len(loops) == 1, "loop over tbexc.stack not found")
     lp = loops[0]
     R.inst("pairing loop: traceback advances once per frame, unconditionally")
     adv = [st for st in lp.body if isinstance(st, ast.Assign) and norm(st) == "tb = tb.tb_next"]
